@@ -39,7 +39,7 @@ def describe(tier):
 
 
 def plan(tier, seed):
-    return [(tier,) + u for u in ep.plan(BOUNDS[tier])]
+    return [(tier,) + u for u in ep.plan(BOUNDS[tier])] + ep.interp_units(tier)
 
 
 def on_run(rec, run, w, size):
